@@ -11,6 +11,7 @@
                                  import form, yields engine e's module
       no_mixture                 for all event lists in [in_domain0] (any engines, any switching): imports, restoration
                                  and configuration are as the property demands
+      goc_dialects_given         every ACTIVATE_CONFIG entry routed to a dialect slot determines that attribute of the session
       run_conforms               for all event lists in [in_domain] the model's observations are accepted by the Spec
                                  (no mixture, restoration, configuration, session) *)
 From SF Require Export C20.Activate.
@@ -812,17 +813,14 @@ Proof.
   - exact (H2 _ _ _ H).
 Qed.
 
-Lemma step_goc : forall E ss s,
-  Inv E ss s ->
-  (match active ss with Some (e, _) => mem e (f_selfref fa) = false | None => True end) ->
-  accept fa en ss GetOrCreate (fst (get_or_create fa en s)) (config (snd (get_or_create fa en s))) = true
-  /\ Inv E ss (snd (get_or_create fa en s)).
+Lemma step_goc_session : forall E ss s e c,
+  Inv E ss s -> active ss = Some (e, c) ->
+  accept fa en ss GetOrCreate (fst (goc_session fa en e s)) (config (snd (goc_session fa en e s))) = true
+  /\ Inv E ss (snd (goc_session fa en e s)).
 Proof.
-  intros E ss s HI Hsr. pose proof (inv_act _ _ _ HI) as Hact.
-  unfold get_or_create.
-  destruct (active ss) as [[e c]|] eqn:Hac.
+  intros E ss s e c HI Hac. pose proof (inv_act _ _ _ HI) as Hact. rewrite Hac in Hact.
+  unfold goc_session.
   - destruct Hact as [Hh [Hin Hc]]. pose proof Hh as [Ht [Hq _]].
-    unfold Activate.import_sql. rewrite Hq, Hsr.
     destruct (inv_sess _ _ _ HI) as [Hse Hbc].
     (* what the two modes give: the stored connection was given to this engine; a live / cached session that is
        returned is this engine's *)
@@ -889,6 +887,42 @@ Proof.
            rewrite Ho. cbn [fst]. split; [now apply (accept_session ss e c) | exact HI2].
         -- apply (Hcreate s HI eq_refl).
       * cbn [fst snd]. split; [unfold accept; cbn [snext]; rewrite Hac; cbn; rewrite Hse; reflexivity | exact HI].
+Qed.
+
+Lemma Inv_aux : forall E ss s s',
+  Inv E ss s ->
+  top s' = top s -> sql s' = sql s -> tst s' = tst s -> subs s' = subs s -> pattr s' = pattr s -> config s' = config s ->
+  sessall s' = sessall s -> Inv E ss s'.
+Proof.
+  intros E ss s s' HI Ht Hq Hts Hsb Hpa Hc Hs.
+  apply (Inv_sessall E ss s); try assumption.
+  apply (sess_ok_same ss ss s); [reflexivity | exact Hs | exact (inv_sess _ _ _ HI)].
+Qed.
+
+Lemma note_dial_spec : forall E ss e r,
+  Inv E ss (snd r) ->
+  fst (note_dial fa e r) = fst r /\ config (snd (note_dial fa e r)) = config (snd r) /\ Inv E ss (snd (note_dial fa e r)).
+Proof.
+  intros E ss e [o s'] HI. unfold note_dial. cbn [fst snd] in *.
+  destruct o; cbn [fst snd]; (split; [reflexivity | split; [reflexivity | apply (Inv_aux E ss s'); try reflexivity; exact HI]]).
+Qed.
+
+Lemma step_goc : forall E ss s,
+  Inv E ss s ->
+  (match active ss with Some (e, _) => mem e (f_selfref fa) = false | None => True end) ->
+  accept fa en ss GetOrCreate (fst (get_or_create fa en s)) (config (snd (get_or_create fa en s))) = true
+  /\ Inv E ss (snd (get_or_create fa en s)).
+Proof.
+  intros E ss s HI Hsr. pose proof (inv_act _ _ _ HI) as Hact.
+  unfold get_or_create.
+  destruct (active ss) as [[e c]|] eqn:Hac.
+  - destruct Hact as [Hh _]. pose proof Hh as [_ [Hq _]].
+    unfold Activate.import_sql. rewrite Hq, Hsr.
+    set (s2 := set_bd s (apply_cfg fa e (config s) (bd s))).
+    assert (HI2 : Inv E ss s2) by (apply (Inv_aux E ss s); try reflexivity; exact HI).
+    destruct (step_goc_session E ss s2 e c HI2 Hac) as [Hacc HI3].
+    destruct (note_dial_spec E ss e (goc_session fa en e s2) HI3) as [Ho [Hcf HI4]].
+    rewrite Ho, Hcf. split; [exact Hacc | exact HI4].
   - destruct Hact as [Hr Hcfg].
     destruct (import_sql_real s Hr) as [Ho [Hr' [Hf1 [Hf2 Hf3]]]].
     destruct (import_sql s) as [o s1]; cbn [fst snd] in *. subst o.
@@ -899,10 +933,44 @@ Proof.
       - rewrite Hf1. exact (inv_cfg _ _ _ HI).
       - intros _. rewrite Hac. exact I.
       - apply (sess_ok_same ss ss s); [reflexivity | exact Hf2 | exact (inv_sess _ _ _ HI)]. }
+    assert (HI2 : Inv E ss (set_lastd s1 LNone)) by (apply (Inv_aux E ss s1); try reflexivity; exact HI').
     unfold accept. cbn [snext]. rewrite Hac.
     unfold Activate.base_view. destruct (installed en) eqn:Hi; cbn [fst snd].
-    + split; [rewrite Hf1, Hcfg; reflexivity | exact HI'].
-    + split; [rewrite Hf1, Hcfg; reflexivity | exact HI'].
+    + split; [cbn [config set_lastd]; rewrite Hf1, Hcfg; reflexivity | exact HI2].
+    + split; [cbn [config set_lastd]; rewrite Hf1, Hcfg; reflexivity | exact HI2].
+Qed.
+
+Lemma step_bconf : forall E ss s single kv,
+  Inv E ss s ->
+  (match active ss with Some (e, _) => mem e (f_selfref fa) = false | None => True end) ->
+  accept fa en ss (BuilderConfig single kv) (fst (builder_config fa en single kv s)) (config (snd (builder_config fa en single kv s))) = true
+  /\ Inv E ss (snd (builder_config fa en single kv s)).
+Proof.
+  intros E ss s single kv HI Hsr. pose proof (inv_act _ _ _ HI) as Hact.
+  unfold builder_config, accept. cbn [snext].
+  destruct (active ss) as [[e c]|] eqn:Hac.
+  - destruct Hact as [Hh _]. pose proof Hh as [_ [Hq _]].
+    unfold Activate.import_sql. rewrite Hq, Hsr. cbn [fst snd].
+    split; [reflexivity | apply (Inv_aux E ss s); try reflexivity; exact HI].
+  - destruct Hact as [Hr Hcfg].
+    destruct (import_sql_real s Hr) as [Ho [Hr' [Hf1 [Hf2 Hf3]]]].
+    destruct (import_sql s) as [o s1]; cbn [fst snd] in *. subst o.
+    assert (HI' : Inv E ss s1).
+    { constructor.
+      - now apply realc_attr_inv. - exact (inv_hist _ _ _ HI).
+      - rewrite Hac. split; [exact Hr' | congruence].
+      - rewrite Hf1. exact (inv_cfg _ _ _ HI).
+      - intros _. rewrite Hac. exact I.
+      - apply (sess_ok_same ss ss s); [reflexivity | exact Hf2 | exact (inv_sess _ _ _ HI)]. }
+    unfold Activate.base_view. destruct (installed en); cbn [fst snd];
+      (split; [rewrite Hf1, Hcfg; reflexivity | exact HI']).
+Qed.
+
+Lemma step_readd : forall E ss s o,
+  Inv E ss s -> accept fa en ss ReadDialects o (config s) = true.
+Proof.
+  intros E ss s o HI. pose proof (inv_act _ _ _ HI) as Hact. unfold accept. cbn [snext].
+  destruct (active ss) as [[e c]|]; [reflexivity|]. destruct Hact as [_ Hc]. rewrite Hc. reflexivity.
 Qed.
 
 Lemma step_inv : forall E ss s ev,
@@ -911,7 +979,7 @@ Lemma step_inv : forall E ss s ev,
   /\ Inv (next_engine E ev) (snext ss ev) (snd (step s ev)).
 Proof.
   intros E ss s ev HI Hok Hs.
-  destruct ev as [e c kv | | e c kv | k | | fm p | e]; cbn [Activate.step step_ok] in *;
+  destruct ev as [e c kv | | e c kv | k | | fm p | e | single kv | ]; cbn [Activate.step step_ok] in *;
     unfold next_engine, single_ok in *; cbn [engine_of] in *.
   - apply (step_activate E ss s e c kv HI Hok); [destruct Hs as [Hs | Hs]; [left; exact Hs | right; destruct E; auto] | left; reflexivity].
   - apply negb_true_iff in Hok. apply (step_deactivate E ss s Deactivate HI Hok); [reflexivity | exact I].
@@ -921,6 +989,8 @@ Proof.
   - apply (step_goc E ss s HI). destruct (active ss) as [[e c]|]; [|exact I]. now apply negb_true_iff in Hok.
   - apply (step_import E ss s fm p HI).
   - apply (step_loadf E ss s e HI).
+  - apply (step_bconf E ss s single kv HI). destruct (active ss) as [[e c]|]; [|exact I]. now apply negb_true_iff in Hok.
+  - cbn [fst snd]. split; [exact (step_readd E ss s _ HI) | exact HI].
 Qed.
 
 Lemma single_engine_step : forall E ev r,
@@ -990,17 +1060,39 @@ Proof.
       unfold realc. rewrite Ht, Hq, Hts, Hsb. exact (conj A (conj B (conj C D))).
 Qed.
 
+Lemma same_core_trans : forall a b c, same_core a b -> same_core b c -> same_core a c.
+Proof.
+  intros a b c [A1 [A2 [A3 [A4 [A5 A6]]]]] [B1 [B2 [B3 [B4 [B5 B6]]]]]. repeat split; congruence.
+Qed.
+
+Lemma goc_session_core : forall e s, same_core s (snd (goc_session fa en e s)).
+Proof.
+  intros e s. unfold goc_session.
+  destruct (if mem e (f_cached fa) then assoc e (bcache s) else None) as [[e1 c1]|]; [repeat split|].
+  unfold remember, create_session.
+  destruct (sess s) as [|e1 c1|]; [| |repeat split].
+  - destruct (is_bad _ && _); cbn [fst snd]; [repeat split|]. destruct (mem e (f_cached fa)); repeat split.
+  - destruct (String.eqb e1 e || f_singleton_global fa).
+    + destruct (mem e (f_cached fa)); repeat split.
+    + destruct (is_bad _ && _); cbn [fst snd]; [repeat split|]. destruct (mem e (f_cached fa)); repeat split.
+Qed.
+
+Lemma note_dial_core : forall e r, same_core (snd r) (snd (note_dial fa e r)).
+Proof. intros e [o s']. unfold note_dial. destruct o; repeat split. Qed.
+
 Lemma goc_core_active : forall e s, sql s = Some (SfPkg e) -> same_core s (snd (get_or_create fa en s)).
 Proof.
   intros e s Hq. unfold get_or_create, Activate.import_sql. rewrite Hq.
   destruct (mem e (f_selfref fa)); [repeat split|].
-  destruct (if mem e (f_cached fa) then assoc e (bcache s) else None) as [[e0 c0]|]; [repeat split|].
-  unfold remember, create_session.
-  destruct (sess s) as [|e0 c0|]; [| |repeat split].
-  - destruct (is_bad _ && _); cbn [fst snd]; [repeat split|]. destruct (mem e (f_cached fa)); repeat split.
-  - destruct (String.eqb e0 e || f_singleton_global fa).
-    + destruct (mem e (f_cached fa)); repeat split.
-    + destruct (is_bad _ && _); cbn [fst snd]; [repeat split|]. destruct (mem e (f_cached fa)); repeat split.
+  set (s2 := set_bd s (apply_cfg fa e (config s) (bd s))).
+  apply (same_core_trans s s2); [repeat split|].
+  apply (same_core_trans s2 (snd (goc_session fa en e s2))); [apply goc_session_core | apply note_dial_core].
+Qed.
+
+Lemma bconf_core_active : forall e s single kv, sql s = Some (SfPkg e) -> same_core s (snd (builder_config fa en single kv s)).
+Proof.
+  intros e s single kv Hq. unfold builder_config, Activate.import_sql. rewrite Hq.
+  destruct (mem e (f_selfref fa)); repeat split.
 Qed.
 
 Lemma step_inv0 : forall ss s ev,
@@ -1028,7 +1120,7 @@ Proof.
     specialize (Hc Ho). split.
     - destruct ev'; try destruct Hev; unfold accept0, accept; rewrite Hsn; cbn [active]; rewrite Hc, Ho; reflexivity.
     - rewrite Hsn. split; [now apply realc_attr_inv | split; assumption]. }
-  destruct ev as [e c kv | | e c kv | k | | fm p | e]; cbn [Activate.step step_ok0 step_ok] in *.
+  destruct ev as [e c kv | | e c kv | k | | fm p | e | single kv | ]; cbn [Activate.step step_ok0 step_ok] in *.
   - apply (Hactiv e c kv Hok). left; reflexivity.
   - apply negb_true_iff in Hok. apply (Hdeact Hok Deactivate); [reflexivity | exact I].
   - apply (Hactiv e c kv Hok). right; reflexivity.
@@ -1042,8 +1134,9 @@ Proof.
     + unfold get_or_create. destruct Hact as [Hr Hcfg].
       destruct (import_sql_real s Hr) as [Ho [Hr' [Hf1 _]]].
       destruct (import_sql s) as [o s1]; cbn [fst snd] in *. subst o.
-      assert (HI' : Inv0 ss s1) by (unfold Inv0; rewrite Hac; split; [now apply realc_attr_inv | split; [exact Hr' | congruence]]).
-      unfold Activate.base_view. destruct (installed en); cbn [fst snd]; (split; [rewrite Hf1, Hcfg; reflexivity | exact HI']).
+      assert (HI' : Inv0 ss (set_lastd s1 LNone)) by (unfold Inv0; rewrite Hac; split; [now apply realc_attr_inv | split; [exact Hr' | cbn; congruence]]).
+      unfold Activate.base_view. destruct (installed en); cbn [fst snd];
+        (split; [cbn [config set_lastd]; rewrite Hf1, Hcfg; reflexivity | exact HI']).
   - (* imports *)
     unfold accept0, accept. cbn [snext].
     destruct (active ss) as [[e c]|] eqn:Hac.
@@ -1062,6 +1155,22 @@ Proof.
     + unfold accept0, accept. cbn [snext]. destruct (active ss) as [[e' c]|]; cbn; [reflexivity|].
       destruct Hact as [_ Hc]. rewrite Hc. reflexivity.
     + split; [apply attr_inv_more; exact Hai|]. cbn [snext]. destruct (active ss) as [[e' c]|]; exact Hact.
+  - (* SparkSession.builder.config(...) *)
+    unfold accept0, accept. cbn [snext].
+    destruct (active ss) as [[e c]|] eqn:Hac.
+    + pose proof Hact as [_ [Hq _]]. apply negb_true_iff in Hok.
+      split.
+      * unfold builder_config, Activate.import_sql. rewrite Hq, Hok. reflexivity.
+      * apply (Inv0_core ss s); [unfold Inv0; rewrite Hac; split; assumption | now apply (bconf_core_active e)].
+    + unfold builder_config. destruct Hact as [Hr Hcfg].
+      destruct (import_sql_real s Hr) as [Ho [Hr' [Hf1 _]]].
+      destruct (import_sql s) as [o s1]; cbn [fst snd] in *. subst o.
+      assert (HI' : Inv0 ss s1) by (unfold Inv0; rewrite Hac; split; [now apply realc_attr_inv | split; [exact Hr' | congruence]]).
+      unfold Activate.base_view. destruct (installed en); cbn [fst snd]; (split; [rewrite Hf1, Hcfg; reflexivity | exact HI']).
+  - (* reading the dialects of the last session *)
+    cbn [fst snd]. split; [|split; assumption].
+    unfold accept0, accept. cbn [snext]. destruct (active ss) as [[e c]|]; [reflexivity|].
+    destruct Hact as [_ Hc]. rewrite Hc. reflexivity.
 Qed.
 
 Theorem no_mixture : forall evs,
@@ -1077,6 +1186,67 @@ Proof.
     specialize (IH _ _ HI' Hok2).
     destruct (run s1 r) as [os s2]. cbn [fst conforms0] in *. now rewrite Hacc, IH. }
   apply Hgen. split; [apply attr_inv_init | split; [apply realc_init | reflexivity]].
+Qed.
+
+(** ** config |-> session attributes: whatever the Builder object held before, every ACTIVATE_CONFIG entry that
+    Builder._set_config routes to a dialect slot determines that attribute of the session getOrCreate returns *)
+Lemma dlook_cons_other : forall e i e' j v l, Nat.eqb i j = false -> dlook e i ((e', j, v) :: l) = dlook e i l.
+Proof. intros. cbn. rewrite H. now rewrite andb_false_r. Qed.
+
+Lemma apply_cfg_given : forall e i v cfg l,
+  (forall k' v', In (k', v') cfg -> assoc k' (f_chain fa) = Some i -> v' = v) ->
+  ((exists k, In (k, v) cfg /\ assoc k (f_chain fa) = Some i /\ i <? 3 = true) \/ dlook e i l = Some v) ->
+  dlook e i (apply_cfg fa e cfg l) = Some v.
+Proof.
+  intros e i v cfg. induction cfg as [|[k1 v1] r IH]; intros l Hu H.
+  - destruct H as [[k [[] _]] | H]. exact H.
+  - unfold apply_cfg. cbn [fold_left fst snd]. apply IH.
+    + intros k' v' Hin. apply Hu. right; exact Hin.
+    + destruct H as [[k [[Heq | Hin] [Hk Hi]]] | Hl].
+      * inversion Heq; subst k1 v1. right. unfold apply_key. rewrite Hk, Hi. cbn.
+        now rewrite String.eqb_refl, Nat.eqb_refl.
+      * left. exists k. repeat split; assumption.
+      * right. unfold apply_key. destruct (assoc k1 (f_chain fa)) as [j|] eqn:Hj; [|exact Hl].
+        destruct (j <? 3); [|exact Hl].
+        destruct (Nat.eqb i j) eqn:Hij.
+        -- apply Nat.eqb_eq in Hij. subst j. rewrite (Hu k1 v1 (or_introl eq_refl) Hj).
+           cbn. now rewrite String.eqb_refl, Nat.eqb_refl.
+        -- rewrite dlook_cons_other by exact Hij. exact Hl.
+Qed.
+
+Lemma goc_session_bd : forall e s, bd (snd (goc_session fa en e s)) = bd s.
+Proof.
+  intros e s. unfold goc_session.
+  destruct (if mem e (f_cached fa) then assoc e (bcache s) else None) as [[e1 c1]|]; [reflexivity|].
+  unfold remember, create_session.
+  destruct (sess s) as [|e1 c1|]; [| |reflexivity].
+  - destruct (is_bad _ && _); cbn [fst snd]; [reflexivity|]. destruct (mem e (f_cached fa)); reflexivity.
+  - destruct (String.eqb e1 e || f_singleton_global fa).
+    + destruct (mem e (f_cached fa)); reflexivity.
+    + destruct (is_bad _ && _); cbn [fst snd]; [reflexivity|]. destruct (mem e (f_cached fa)); reflexivity.
+Qed.
+
+Definition nth_dial (i : nat) (d : nat * (nat * nat)) : nat :=
+  match d with (a, (b, c)) => match i with 0 => a | 1 => b | _ => c end end.
+
+Theorem goc_dialects_given : forall s e k i v,
+  sql s = Some (SfPkg e) -> mem e (f_selfref fa) = false ->
+  assoc k (f_chain fa) = Some i -> i <? 3 = true -> In (k, v) (config s) ->
+  (forall k' v', In (k', v') (config s) -> assoc k' (f_chain fa) = Some i -> v' = v) ->
+  forall e0 c0, fst (get_or_create fa en s) = GSession e0 c0 ->
+  exists d, lastd (snd (get_or_create fa en s)) = LSome d /\ nth_dial i d = v.
+Proof.
+  intros s e k i v Hq Hsr Hk Hi Hin Hu e0 c0. unfold get_or_create, Activate.import_sql. rewrite Hq, Hsr.
+  set (s2 := set_bd s (apply_cfg fa e (config s) (bd s))).
+  pose proof (goc_session_bd e s2) as Hbd.
+  destruct (goc_session fa en e s2) as [o s3]. cbn [snd] in Hbd. unfold note_dial.
+  destruct o; cbn [fst snd]; intros Ho; try discriminate.
+  eexists; split; [reflexivity|].
+  rewrite Hbd. unfold s2. cbn [bd set_bd].
+  assert (Hl : dlook e i (apply_cfg fa e (config s) (bd s)) = Some v).
+  { apply apply_cfg_given; [exact Hu|]. left. exists k. repeat split; assumption. }
+  unfold dial_of, nth_dial, slot_of.
+  destruct i as [|[|[|i]]]; try (rewrite Hl; reflexivity). cbn in Hi. discriminate.
 Qed.
 
 (** ** deactivate_restores: after ANY history, from any starting state, a deactivate() that returns gives back exactly the
